@@ -39,6 +39,7 @@ HOW_TO_READ = ("case: get_chunk_dtype_transformer(in, out)(array(values) in "
 IN_TYPES = ["int8", "uint8", "int16", "uint16", "int32", "uint32", "int64",
             "uint64", "float32", "float64"]
 OUT_TYPES = ["uint8", "uint16", "uint32", "uint64", "float32"]
+_TRANSFORMERS = {}
 LAYOUTS = ["contig", "fortran", "strided", "readonly", "reversed", "empty",
            "bigendian", "bigendian-array-only"]
 
@@ -151,9 +152,13 @@ def _evaluate(col, tin, tout, preserve, layout, values):
     n_elems = max(1, len(idx))
     with np.errstate(all="ignore"):
         try:
-            tr = get_chunk_dtype_transformer(
-                np.dtype(tin).newbyteorder(">") if layout == "bigendian"
-                else tin, tout, warn=False)
+            # one transformer serves many chunks (as in a conversion run)
+            key = (tin, tout, layout == "bigendian")
+            tr = _TRANSFORMERS.get(key)
+            if tr is None:
+                tr = _TRANSFORMERS[key] = get_chunk_dtype_transformer(
+                    np.dtype(tin).newbyteorder(">") if layout == "bigendian"
+                    else tin, tout, warn=False)
             res = tr(a, preserve_input=preserve)
         except Exception as exc:
             col.ev(n_elems, n_elems, "exception")
